@@ -63,8 +63,58 @@ def mk(rng, tier):
     return case
 
 
+def vecsym_length_fails(case):
+    v = np.array(case['x'])
+    L = v.shape[2]
+    tri = any(n_ * (n_ + 1) // 2 == L for n_ in range(1, L + 1))
+    for entry in ('dispatcher', 'method'):
+        try:
+            A = algopy.vecsym(UTPM(v.copy())) if entry == 'dispatcher' else UTPM.vecsym(UTPM(v.copy()))
+        except Exception as ex:
+            if tri:
+                return 'vecsym-length-exception: vecsym of a vector of triangular length %d raised %s' % (L, type(ex).__name__)
+            continue
+        back = algopy.symvec(A)
+        if back.data.shape != v.shape or not np.array_equal(back.data, v):
+            return 'vecsym-length: vecsym accepted a vector of length %d and symvec returns %d entries (information lost)' % (L, back.data.shape[-1])
+    return None
+
+
+def mixed_container_fails(case):
+    """a container whose elements are polynomials of different coefficient dtypes (real first, complex later and vice versa) and
+    plain constants: every element is found again unchanged (nothing dropped, whatever the order)"""
+    D, P = case['D'], case['P']
+    elems, want = [], []
+    for kind, v in zip(case['kinds'], case['vals']):
+        v = np.array(v)
+        if kind == 'const':
+            c = complex(v.ravel()[0]) if np.iscomplexobj(v) else float(v.ravel()[0])
+            elems.append(np.float64(c) if (not isinstance(c, complex) and len(elems) % 2 == 0) else c)     # Python and NumPy scalars
+            w = np.zeros((D, P), dtype=complex if isinstance(c, complex) else float)
+            w[0] = c
+            want.append(w)
+        else:
+            elems.append(UTPM(v.copy()))
+            want.append(v)
+    for name, f in (('as_utpm', UTPM.as_utpm), ('ndarray2utpm', utils.ndarray2utpm)):
+        try:
+            y = f(list(elems))
+        except Exception as ex:
+            return '%s-mixed-exception: raised %s for element kinds %s' % (name, type(ex).__name__ + ':' + str(ex)[:60], case['kinds'])
+        for i, w in enumerate(want):
+            got = y.data[:, :, i]
+            if got.shape != w.shape or not np.array_equal(got, w):
+                return '%s-mixed: element %d (%s) is not found again unchanged (element kinds %s, result dtype %s)' % (
+                    name, i, case['kinds'][i], case['kinds'], y.data.dtype)
+    return None
+
+
 def run_one(ctx, case):
     k = case['op']
+    if k == 'vecsym-length':
+        return vecsym_length_fails(case)
+    if k == 'mixed-container':
+        return mixed_container_fails(case)
     if k == 'shift':
         x = np.array(case['x'])
         s = int(case['s'])
@@ -331,6 +381,38 @@ def run(ctx):
             f = run_one(ctx, case)
         except Exception as ex:
             f = 'exception-%s: %s' % (case['op'], type(ex).__name__ + ':' + str(ex)[:100])
+        if f:
+            ctx.report(case, 'failure', f)
+    # vecsym for every vector length 1..36: a triangular length N(N+1)/2 gives the N x N matrix from which symvec returns the
+    # vector unchanged; any other length has no symmetric matrix -- it must be rejected, never silently shortened
+    for L in range(1, 37):
+        for (D_, P_) in ((1, 1), (2, 2)):
+            v = rand_coeffs(ctx.rng, (D_, P_, L), -2, 2)
+            case = {'op': 'vecsym-length', 'D': D_, 'P': P_, 'x': v}
+            ctx.evaluations += 1
+            ctx.count('op=vecsym-length')
+            f = vecsym_length_fails(case)
+            if f:
+                ctx.report(case, 'failure', f)
+    for i in range(40 if ctx.tier == 'quick' else 400):
+        D_, P_ = ctx.rng.randint(1, 3), ctx.rng.randint(1, 2)
+        kinds = ['float'] + [ctx.rng.choice(['float', 'complex', 'float32', 'const', 'const']) for _ in range(ctx.rng.randint(1, 3))]
+        if ctx.rng.random() < 0.4:
+            kinds[0] = ctx.rng.choice(['complex', 'float32'])
+        vals = []
+        for kd in kinds:
+            if kd == 'const':
+                vals.append(np.array([ctx.rng.choice([1.5, -2.0, 0.25])]) if ctx.rng.random() < 0.7 else np.array([1.5 - 0.5j]))
+            elif kd == 'complex':
+                vals.append(rand_coeffs(ctx.rng, (D_, P_), -2, 2) + 1j * rand_coeffs(ctx.rng, (D_, P_), -2, 2))
+            elif kd == 'float32':
+                vals.append(rand_coeffs(ctx.rng, (D_, P_), -2, 2).astype(np.float32))
+            else:
+                vals.append(rand_coeffs(ctx.rng, (D_, P_), -2, 2) + 2.0 ** -40)      # not representable in float32
+        case = {'op': 'mixed-container', 'D': D_, 'P': P_, 'kinds': kinds, 'vals': vals}
+        ctx.evaluations += 1
+        ctx.count('op=mixed-container')
+        f = mixed_container_fails(case)
         if f:
             ctx.report(case, 'failure', f)
     Nmax = 4 if ctx.tier == 'quick' else 5
